@@ -1632,6 +1632,8 @@ def Mandatory(cls, **_kwargs):
     elif issubclass(cls, Array):
         (k,v), = cls._type_info.items()
         if v.Attributes.min_occurs == 0:
+            # work on a copy: the array that was passed in must stay as it is
+            cls = cls.customize()
             cls._type_info[k] = Mandatory(v)
 
     return cls.customize(**kwargs)
